@@ -376,3 +376,19 @@ def run_check(fn, pid, level="model_checking"):
         c.cleanup()
         return 2
     return rc
+
+
+def generic_replay(pid, path):
+    """Replay of a recorded violation: prints the recorded case and re-runs the property's check with the tier and seed under
+    which the violation was found (both are part of the replay file). Exit code as for the check itself."""
+    with open(path) as f:
+        d = json.load(f)
+    print("recorded violation of %s: %s" % (d.get("property"), d.get("what", "")[:2000]))
+    print(json.dumps(d.get("case"), indent=1, default=str)[:6000])
+    m = re.search(r"-(quick|thorough)-(\d+)-\d+\.json$", path)
+    if m:
+        os.environ["VERIF_TIER"] = m.group(1)
+        os.environ["VERIF_SEED"] = m.group(2)
+    import importlib
+    mod = importlib.import_module(pid.lower())
+    return run_check(mod.check, pid, getattr(mod, "LEVEL", "model_checking"))
